@@ -96,3 +96,13 @@ META["C02"] = {
     "note": "Decides linearizability exactly only for the forced windows and for whatever the scheduler produces under stress; assumes mutex-protected sections are atomic; hooks are compiled in with -tags verif only.",
     "technique": "hook-forced interleaving generation (rapid) + goroutine stress with yield fuzzing; oracle = exhaustive linearization search against the reference store",
 }
+META["C03"] = {
+    "text": ("Generated subscribe/commit/publish interleavings with a fold oracle. Forced mode: rapid draws 1-3 writer scripts, 1-3 subscriptions (Pull/PullID x updates-only x backpressure x read mask) "
+             "and a plan of injections that run inline at named hook points: the subscribe call inside a writer's windows (optimistic read, before lock, after commit, inside Send), writes inside the "
+             "subscribe windows (after the seed snapshot, before listener registration; on a helper goroutine where a lock is held), a second writer inside the commit->publish window, cancels and yields. "
+             "Stress mode runs the same scenarios on real goroutines with hook-point yields. After the writers stop a sentinel write marks quiescence; folding each live subscription's events must "
+             "equal Get/List under its read mask and the last Value event must carry the final value. The known publish-after-unlock reordering is tolerated by exact signature (only for ids written "
+             "inside a commit->publish window / by >=2 concurrent writers)."),
+    "note": "Only the named windows are forced; quiescence is a sentinel write with a 10 s bound (non-delivery of the sentinel is reported as a lost commit); lossy single-item streams are judged by sentinel arrival; PullID views are polled to convergence.",
+    "technique": "hook-forced interleaving generation (rapid) + goroutine stress; oracle = event fold vs store state at sentinel-decided quiescence",
+}
